@@ -202,7 +202,18 @@ func (d *Driver) runShard(shard, nw int, m *Merged, mu *sync.Mutex) {
 		mu.Lock()
 		m.Cases++
 		m.Evaluations++
-		if abort != "" {
+		if abort != "" && p.NoReturnIsViolation {
+			m.Violated++
+			key := p.ID + "|no-return|" + abort
+			v := m.Violations[key]
+			if v == nil {
+				at, _ := json.Marshal(open.At)
+				v = &Violation{VKey: key, Case: open.Case, Idx: open.Idx, Replay: open.Replay,
+					Detail: "case stopped by the " + abort + " guard (does not return / allocates without bound) at " + string(at)}
+				m.Violations[key] = v
+			}
+			v.Count++
+		} else if abort != "" {
 			m.Inconclusive[abort]++
 		} else {
 			kind, msg := classifyDeath(string(stderrB))
@@ -252,6 +263,7 @@ type openCase struct {
 	Idx    int
 	Case   string
 	Replay any
+	At     any
 }
 
 func (d *Driver) mergeFile(path string, m *Merged, mu *sync.Mutex) (done bool, open *openCase, abort string) {
@@ -277,6 +289,7 @@ func (d *Driver) mergeFile(path string, m *Merged, mu *sync.Mutex) (done bool, o
 			Done   bool    `json:"done"`
 			Abort  string  `json:"abort"`
 			I      int     `json:"i"`
+			At     any     `json:"at"`
 		}
 		if err := json.Unmarshal(line, &rec); err != nil {
 			continue // torn line of a dying worker
@@ -289,6 +302,7 @@ func (d *Driver) mergeFile(path string, m *Merged, mu *sync.Mutex) (done bool, o
 			if open == nil {
 				open = &openCase{Idx: rec.I, Case: rec.Case, Replay: rec.Replay}
 			}
+			open.At = rec.At
 		case rec.B != nil:
 			open = &openCase{Idx: *rec.B, Case: rec.Case, Replay: rec.Replay}
 		case rec.E != nil:
@@ -388,6 +402,7 @@ func (d *Driver) Finish(m *Merged, t0 time.Time) int {
 		}
 		unknown = append(unknown, v)
 	}
+	printed := 0
 	for _, v := range unknown {
 		h := sha1.Sum([]byte(v.VKey))
 		rp := filepath.Join(d.VerifDir, "replays", fmt.Sprintf("%s-%x.json", p.ID, h[:5]))
@@ -397,7 +412,12 @@ func (d *Driver) Finish(m *Merged, t0 time.Time) int {
 		}, "", " ")
 		os.WriteFile(rp, b, 0o644)
 		fmt.Printf("VIOLATION property=%s replay=%s\n", p.ID, rp)
-		fmt.Printf("  key: %s (%d×)\n  %s\n", v.VKey, v.Count, indent(truncate(v.Detail, 1500)))
+		if printed < 12 {
+			fmt.Printf("  key: %s (%d×)\n  %s\n", v.VKey, v.Count, indent(truncate(v.Detail, 1200)))
+		} else {
+			fmt.Printf("  key: %s (%d×)\n", v.VKey, v.Count)
+		}
+		printed++
 		exit = 1
 	}
 
